@@ -11,6 +11,14 @@ CHECKS = {
   text="Generated-input search over well-framed streams with arbitrary header values: the scanner (in-process, seek and read-discard readers, payload loaded/skipped) and the real CLI (`view rdh`, data view; file and stdin) must visit exactly the chained RDHs, once, in order, with true offsets, independently decoded field values and exact payload bytes, under every filter kind. Differential against an independent chain walker.",
   note="Trusted base: independent RDH decoder / chain walker / filter predicate in harness/src/model.rs; domain = well-framed inputs whose first RDH0 passes the documented pre-check.",
   technique="property-based testing: differential oracle (independent reference walker) over generated well-framed streams"),
+ "C05": dict(
+  text="Differential over schedules: each generated multi-link erroneous input is executed K times on the hook-enabled CLI under seeded schedule perturbation at every channel hand-off (slow validators / collector / dispatcher, random yields and sleeps); error messages and their order, report, statistics file bytes and exit status must be identical across runs. The number of distinct pre-sort arrival orders actually reached is measured with the trace hook and only cases with >= 2 count as non-trivial.",
+  note="Trusted base: the perturbation hook (feature `verif`) only adds sleeps/yields; schedules are sampled, not enumerated, so a race outside the perturbed hand-offs can be missed (DESIGN.md section 7).",
+  technique="property-based testing with fault/schedule injection: metamorphic relation (same input, different schedules => identical observables), schedule diversity measured by trace hook"),
+ "C07": dict(
+  text="Round-trip oracle against the input: for generated well-framed streams with arbitrary/corrupted word-structured payloads, every error message's leading offset must be an RDH start or word start of the independently walked chain, quoted 10-byte dumps must equal the input bytes at that offset, `current :` RDH rows must equal an independent decode, frame messages must end on a TDT; all five check modes, all filter kinds, muted and unmuted, stderr and statistics file.",
+  note="Trusted base: independent chain walker and word-offset arithmetic; domain restricted (by the statement) to payload layouts that agree with the header's data format.",
+  technique="property-based testing: round-trip oracle (re-read the input at the reported offset) over generated and mutated streams"),
  "C04": dict(
   text="Generated-input search for crashes and hangs: structure-aware mutations of conforming streams, random bytes, well-framed arbitrary streams and edited repository files, each under a random valid command line, on the real release CLI; oracle = terminates by itself, no panic/abort/signal, exit in {0,1,n}. Confirmed findings are keyed by panic site and recorded, so the search continues behind them.",
   note="Trusted base: watchdog rule (a hang needs 3 x 60 s confirmation); only option combinations accepted by clap/validate_args; debug assertions are off as in the shipped binary.",
